@@ -417,6 +417,8 @@ func gItems(t *tokGen, n, budget int, failMask uint64, failAll bool, fbOK func(i
 					// the exec function returns an error Result with a nil error: a value, not a failure —
 					// it fills the slot but must not raise the stop flag
 					it.Exec = append(it.Exec, "xu"+strconv.Itoa(t.err()))
+				} else if t.r.chance(6) {
+					it.Exec = append(it.Exec, "t0") // the exec function returns a nil payload: a success like any other
 				} else {
 					it.Exec = append(it.Exec, t.tok())
 				}
